@@ -98,6 +98,8 @@ pub struct State {
 
     /// Current anonymous scope index
     anonymous_scope_index: usize,
+    /// How deep blocks and parentheses are nested at the moment (the parser is recursive, so this has to be bounded)
+    pub nesting_depth: usize,
 }
 
 impl State {
@@ -111,6 +113,7 @@ impl State {
             errors: Diagnostics::default(),
             ignore_next_error: false,
             anonymous_scope_index: 0,
+            nesting_depth: 0,
         }
     }
 
